@@ -21,10 +21,10 @@ func (c18Stream) Name() string               { return "c18" }
 func (c18Stream) CaseTimeout() time.Duration { return 60 * time.Second }
 func (c18Stream) NoModel() bool              { return true }
 func (c18Stream) Rule() string {
-	return "TLS configurations {server authentication only, client certificate required and verified (the test directory's WithMTLS configuration)} x {static certificate list, certificate supplied by the GetCertificate callback} x offenders {plaintext LDAP request of each of the seven operations, random bytes, TCP connect without ClientHello, valid TLS without a client certificate, a certificate from a different CA, a foreign leaf with the genuine client certificate appended to its chain} (1..6 offenders in parallel), concurrently with two conforming clients issuing requests and a third that connects while the offenders (a silent one holds its connection for 1.2 s) are still there; oracle: no handler ever runs for an offender's message (offenders use reserved message ids), every conforming request is answered, and each offender's connection is ended without disturbing the others; non-trivial = at least one offender whose bytes would decode as LDAP, distinct by scenario"
+	return "TLS configurations {server authentication only, client certificate required and verified (the test directory's WithMTLS configuration)} x {static certificate list, certificate supplied by the GetCertificate callback} x offenders {plaintext LDAP request of each of the seven operations, random bytes, TCP connect without ClientHello, valid TLS without a client certificate, a certificate from a different CA, a foreign leaf with the genuine client certificate appended to its chain, no / foreign certificate without SNI, a truncated first TLS record followed by silence} (1..6 offenders in parallel), concurrently with two conforming clients issuing requests and a third that connects while the offenders (a silent one holds its connection for 1.2 s) are still there; oracle: no handler ever runs for an offender's message (offenders use reserved message ids) nor on an offender's connection at all, every conforming request is answered, and each offender's connection is ended without disturbing the others; non-trivial = at least one offender whose bytes would decode as LDAP, distinct by scenario"
 }
 
-var c18Offenders = []string{"plain-bind", "plain-search", "plain-modify", "plain-add", "plain-delete", "plain-extended", "plain-unbind", "random", "silent", "nocert", "othercert", "otherchain"}
+var c18Offenders = []string{"plain-bind", "plain-search", "plain-modify", "plain-add", "plain-delete", "plain-extended", "plain-unbind", "random", "silent", "nocert", "othercert", "otherchain", "nocert-nosni", "othercert-nosni", "halfhello"}
 
 func (c18Stream) Generate(rng *rand.Rand, n int, thorough bool) []Case {
 	var cs []Case
@@ -34,7 +34,7 @@ func (c18Stream) Generate(rng *rand.Rand, n int, thorough bool) []Case {
 		offs := make([]string, k)
 		for i := range offs {
 			offs[i] = c18Offenders[rng.Intn(len(c18Offenders))]
-			if mtls == 0 && (offs[i] == "nocert" || offs[i] == "othercert" || offs[i] == "otherchain") {
+			if mtls == 0 && (strings.HasPrefix(offs[i], "nocert") || strings.HasPrefix(offs[i], "othercert") || offs[i] == "otherchain") {
 				offs[i] = "plain-bind" // without client-auth these two are conforming clients
 			}
 		}
@@ -62,7 +62,23 @@ func (c18Stream) Impl(c Case) string {
 	var handled int64
 	var hmu sync.Mutex
 	var offDetail string
+	// every handler invocation is attributed to its connection: a connection on which no conforming client ever
+	// spoke must not see any handler at all (whatever message the handler is given)
+	var cmu sync.Mutex
+	goodConn := map[int]bool{}
+	calls := map[int]string{}
+	note := func(r *gldap.Request) {
+		cmu.Lock()
+		id := r.VerifMessage().GetID()
+		if id >= 1 && id < 60000 {
+			goodConn[r.ConnectionID()] = true
+		} else {
+			calls[r.ConnectionID()] = fmt.Sprintf("message id %d (%s)", id, r.VerifRouteOp())
+		}
+		cmu.Unlock()
+	}
 	h := func(w *gldap.ResponseWriter, r *gldap.Request) {
+		note(r)
 		if id := r.VerifMessage().GetID(); id >= 60000 {
 			atomic.AddInt32(&offenderHandled, 1)
 			hmu.Lock()
@@ -73,6 +89,7 @@ func (c18Stream) Impl(c Case) string {
 		answer(w, r)
 	}
 	uh := func(w *gldap.ResponseWriter, r *gldap.Request) {
+		note(r)
 		if r.VerifMessage().GetID() >= 60000 {
 			atomic.AddInt32(&offenderHandled, 1)
 			hmu.Lock()
@@ -134,7 +151,7 @@ func (c18Stream) Impl(c Case) string {
 			defer ow.Done()
 			id := int64(60000 + i)
 			switch {
-			case strings.HasPrefix(kind, "plain-"), kind == "random", kind == "silent":
+			case strings.HasPrefix(kind, "plain-"), kind == "random", kind == "silent", kind == "halfhello":
 				c, err := net.DialTimeout("tcp", sut.addr, 3*time.Second)
 				if err != nil {
 					return
@@ -142,6 +159,10 @@ func (c18Stream) Impl(c Case) string {
 				defer c.Close()
 				switch kind {
 				case "silent":
+					time.Sleep(1200 * time.Millisecond)
+					return
+				case "halfhello":
+					_, _ = c.Write([]byte{0x16, 0x03, 0x01, 0x02, 0x00})
 					time.Sleep(1200 * time.Millisecond)
 					return
 				case "random":
@@ -159,13 +180,18 @@ func (c18Stream) Impl(c Case) string {
 				if n > 0 && buf[0] == 0x30 {
 					fail("a plaintext %s offender received an LDAP response", kind)
 				}
-			case kind == "nocert" || kind == "othercert" || kind == "otherchain":
+			case strings.HasPrefix(kind, "nocert") || strings.HasPrefix(kind, "othercert") || kind == "otherchain":
 				cfg := cliTLS.Clone() // trusts the server's CA? for mtls use its own pool
 				cfg = goodCli.Clone()
 				cfg.ServerName = "localhost"
 				cfg.Certificates = nil
-				if kind == "othercert" {
+				if strings.HasPrefix(kind, "othercert") {
 					cfg.Certificates = otherCAClient.Certificates
+				}
+				if strings.HasSuffix(kind, "-nosni") {
+					// a client that dials the IP literal and sends no server name (and does not care whom it talks to)
+					cfg.ServerName = ""
+					cfg.InsecureSkipVerify = true
 				}
 				if kind == "otherchain" {
 					// a leaf and key from another CA, with the genuine client certificate (public part only) appended:
@@ -216,6 +242,15 @@ func (c18Stream) Impl(c Case) string {
 		hmu.Lock()
 		verdict = fmt.Sprintf("a handler ran %d time(s) for a client that did not satisfy the TLS configuration: %s", n, offDetail)
 		hmu.Unlock()
+	}
+	if verdict == "ok" {
+		cmu.Lock()
+		for cid, what := range calls {
+			if !goodConn[cid] {
+				verdict = fmt.Sprintf("a handler ran %s on connection %d, on which no client satisfying the TLS configuration ever spoke", what, cid)
+			}
+		}
+		cmu.Unlock()
 	}
 	if verdict == "ok" && atomic.LoadInt64(&handled) == 0 {
 		verdict = "conforming clients were never served"
